@@ -148,8 +148,11 @@ def x3(ctx, rid):
             y, path = r['cancel'][0]
             ctx.bad(rid, key, f.where(y), 'after `%s` moved the %s out of shared state a suspension point is reachable before it is handed back: dropping the future there loses it' % (c.name, what),
                     witness=['bb%d %s' % (b, f.where(b)) for b in (path or [])])
+        elif r['sink_suspends']:
+            sc = r['sink_suspends'][0]
+            ctx.bad(rid, key, sc.where(), 'the %s moved out by `%s` is handed back through `%s(..).await`, and that callee can really suspend (it reaches a leaf future): the only handle lives in the callee\'s frame across that suspension, so dropping the client future there loses it' % (what, c.name, sc.name))
         else:
-            ctx.ok(rid, key, c.where(), 'no yield between the move-out and the hand-back (sinks: %s)' % r['sinks'])
+            ctx.ok(rid, key, c.where(), 'no yield between the move-out and the hand-back (sinks: %s); the hand-back callee cannot suspend' % r['sinks'])
     if n < 4:
         raise core.AnchorLost('move-out sites: %d' % n)
 
